@@ -233,6 +233,69 @@ Definition decl_topic (default : value) (hint : option tyexpr) : res ntype :=
 Definition res_to_option {A} (r : res A) : option A :=
   match r with Ok a => Some a | _ => None end.
 
+(* ---- how the hint reaches __set_name__ ------------------------------ *)
+
+(* The annotation expression of  `x: <ann> = tunable(...)`  as __set_name__
+   accepts it: H or tunable[H], each possibly inside ClassVar[...]
+   (typing rejects a nested ClassVar). *)
+Inductive anninner :=
+| IType (h : tyexpr)                 (* H            *)
+| ITunable (h : tyexpr).             (* tunable[H]   *)
+Inductive annexpr :=
+| APlain (i : anninner)              (* i            *)
+| AClassVar (i : anninner).          (* ClassVar[i]  *)
+
+(* What the class body leaves in owner.__annotations__[name]:
+   - RObj: the evaluated object;
+   - RStr: a str with the source text of the expression -- every annotation
+     of a module that starts with `from __future__ import annotations`
+     (PEP 563), or a hint written in quotes;
+   - RFwd: an evaluated object whose outermost subscript argument was written
+     in quotes (ClassVar["tunable[H]"], tunable["H"], list["float"]): it
+     holds a typing.ForwardRef / a str argument.
+   The model identifies a source text with the expression it denotes: every
+   name in it resolves, in the namespace typing.get_type_hints evaluates it in
+   (module globals, then the class namespace), to the object the same
+   expression evaluates to in the class body. *)
+Inductive rawann :=
+| RObj (a : annexpr)
+| RStr (a : annexpr)
+| RFwd (a : annexpr).
+
+(* typing.get_type_hints(owner).get(name): string annotations and forward
+   references are evaluated *)
+Definition get_type_hints (r : rawann) : annexpr :=
+  match r with RObj a => a | RStr a => a | RFwd a => a end.
+
+(* one tunable of a class body:  x [: ann] = tunable[orig](default) *)
+Record srcdecl := mksrc {
+  s_orig : option tyexpr;            (* tunable[H](...): args of __orig_class__ *)
+  s_ann : option rawann              (* owner.__annotations__.get(name)          *)
+}.
+
+(* origin is typing.ClassVar -> type_hint = get_args(type_hint)[0] *)
+Definition strip_classvar (a : annexpr) : anninner :=
+  match a with APlain i => i | AClassVar i => i end.
+(* origin is tunable -> type_hint = get_args(type_hint)[0] *)
+Definition strip_tunable (i : anninner) : tyexpr :=
+  match i with IType h => h | ITunable h => h end.
+
+(* the first half of tunable.__set_name__: __orig_class__ wins, else the
+   evaluated annotation, unwrapped *)
+Definition set_name_hint (s : srcdecl) : option tyexpr :=
+  match s_orig s with
+  | Some h => Some h
+  | None =>
+      match s_ann s with
+      | Some r => Some (strip_tunable (strip_classvar (get_type_hints r)))
+      | None => None
+      end
+  end.
+
+(* class creation for one tunable attribute, from the way it is written *)
+Definition decl_topic_src (default : value) (s : srcdecl) : res ntype :=
+  decl_topic default (set_name_hint s).
+
 (* None exactly where the class definition raises *)
 Definition topic_of_default (default : value) : option ntype :=
   res_to_option (decl_topic default None).
@@ -614,6 +677,33 @@ Definition grid_hints : list tyexpr :=
 
 Definition grid_decls : list (value * option tyexpr) :=
   flat_map (fun d => (d, None) :: map (fun h => (d, Some h)) grid_hints) grid_defaults.
+
+(* the accepted ways of writing the hint H of a tunable *)
+Inductive quoting :=
+| QObj                               (* evaluated by the class body            *)
+| QStr                               (* whole annotation is a str (PEP 563 / quoted) *)
+| QFwd.                              (* outermost subscript argument quoted    *)
+Inductive spelling :=
+| SpSubscript                                        (* x = tunable[H](d)                   *)
+| SpAnn (q : quoting) (classvar : bool) (in_tunable : bool).
+                                                     (* x: [ClassVar[] [tunable[] H []] [] = tunable(d) *)
+
+Definition spell (sp : spelling) (h : tyexpr) : srcdecl :=
+  match sp with
+  | SpSubscript => mksrc (Some h) None
+  | SpAnn q cv tn =>
+      let i := if tn then ITunable h else IType h in
+      let a := if cv then AClassVar i else APlain i in
+      mksrc None (Some (match q with QObj => RObj a | QStr => RStr a | QFwd => RFwd a end))
+  end.
+(* no hint: neither a subscript nor an annotation *)
+Definition spell_opt (sp : spelling) (h : option tyexpr) : srcdecl :=
+  match h with Some h => spell sp h | None => mksrc None None end.
+
+Definition all_spellings : list spelling :=
+  SpSubscript ::
+  flat_map (fun q => flat_map (fun cv => map (SpAnn q cv) [false; true]) [false; true])
+           [QObj; QStr; QFwd].
 
 (* The documented table, written down independently of get_topic_type:
    which (container, element) pairs have a topic and which one. *)
